@@ -20,7 +20,7 @@ def main():
     vf.build("hooks")
     c.model("Abi.tla", "AbiSmall.cfg" if c.thorough else "AbiSmallQuick.cfg")
     abidiff, abidw = vf.tool("hooks", "abidiff"), vf.tool("hooks", "abidw")
-    cases = campaign.programs(c, 400 if c.thorough else 40)
+    cases = campaign.programs(c, 400 if c.thorough else 30) + campaign.programs(c, 200 if c.thorough else 15, name="gencxx", Lang='"cxx"')
     comps = ["gcc", "clang", "gcc-dwarf4", "clang-dwarf5"] if c.thorough else ["gcc", "clang"]
     sets = optsets(c)
 
